@@ -15,10 +15,17 @@
 (* may share the short algorithm name ("t0.a", "t1.a") or not ("t0.a",     *)
 (* "t1.b").  The configuration is a variable chosen in Init so that one    *)
 (* TLC run covers every configuration of the bound.  The transition system *)
-(* is IMPLEMENTATION SHAPED: it is what defer / complete do on the pinned  *)
-(* tree (a node that fired keeps status `waiting` after completion, defer  *)
-(* skips it, one timer is requested for the earliest event not yet due of  *)
-(* the nodes that were evaluated, boot events are remembered per event).   *)
+(* is IMPLEMENTATION SHAPED, in two variants of schedule.defer:            *)
+(*  Fire = "pinned": a node that fired keeps status `waiting` after        *)
+(*     completion, defer skips it, one timer is requested for the earliest *)
+(*     event not yet due of the nodes that were evaluated (finding 11: a   *)
+(*     weekly / monthly event fires once per process);                     *)
+(*  Fire = "rearm" (fixes/C20_rearm.patch): defer looks at every periodic  *)
+(*     node; a node in the queue is never fired; an event fires once for   *)
+(*     the occurrence it designates (node attribute `served`); every due   *)
+(*     event -- fired, already served or exempt -- asks for a wake-up when *)
+(*     the day is over, so a timer is pending whenever something recurs.   *)
+(* Boot events are remembered per event in both.                           *)
 (* DelayImpl (module Moment, CONSTANT Variant) is the transcription of     *)
 (* _delay used by Defer.                                                   *)
 (*                                                                         *)
@@ -29,7 +36,8 @@
 (***************************************************************************)
 EXTENDS Moment
 
-CONSTANTS Configs,   \* set of [start : Nat, nodes : [tags -> [kind : {"task","analysis"}, events : SUBSET EventSpec]]]
+CONSTANTS Fire,      \* "pinned" | "rearm": which schedule.defer the transition system transcribes
+          Configs,   \* set of [start : Nat, nodes : [tags -> [kind : {"task","analysis"}, events : SUBSET EventSpec]]]
           MaxEnv,    \* bound on environment steps (Tick, Advance, NewTarget)
           Jumps      \* clock increments the environment may choose
 
@@ -48,9 +56,10 @@ VARIABLES cfg,       \* the configuration (constant along a behaviour)
           booted,    \* <<node, boot event>> pairs in schedule.booted
           targets,   \* dawgie.db.targets()
           lastFire,  \* [node -> instant of the last firing (-1: never)]; history variable of the property
+          served,    \* [node -> [event -> the occurrence it last fired for (-1: none)]]  node attribute 'served' ("rearm")
           env        \* environment steps left
 
-fvars == <<cfg, up, clock, timers, status, queued, todo, exec, booted, targets, lastFire, env>>
+fvars == <<cfg, up, clock, timers, status, queued, todo, exec, booted, targets, lastFire, served, env>>
 
 Nodes      == DOMAIN cfg.nodes
 Kind(n)    == cfg.nodes[n].kind
@@ -70,7 +79,7 @@ Due(n, c)   == { e \in Ev(n) : DelayOf(n, e, c).ok /\ DelayOf(n, e, c).d <= Wind
 Later(n, c) == { DelayOf(n, e, c).d : e \in { x \in Ev(n) : DelayOf(n, x, c).ok /\ DelayOf(n, x, c).d > Window } }
 
 (* schedule.defer at instant c; T = the timer requests that remain pending *)
-Defer(c, T) ==
+DeferPinned(c, T) ==
     LET E == { n \in Nodes : status[n] \notin {"running", "waiting"} }      \* the nodes defer() looks at
         F == { n \in E : Due(n, c) # {} }                                    \* ... and queues
         L == UNION { Later(n, c) : n \in E }
@@ -80,12 +89,30 @@ Defer(c, T) ==
        /\ queued'   = [n \in Nodes |-> queued[n] \/ n \in F]
        /\ todo'     = [n \in Nodes |-> IF n \in F THEN todo[n] \cup Want(n) ELSE todo[n]]
        /\ lastFire' = [n \in Nodes |-> IF n \in F THEN c ELSE lastFire[n]]
+       /\ UNCHANGED served
+
+DayOver(c) == (c \div DAY + 1) * DAY + 1 - c          \* seconds until one second after the next UTC midnight
+DeferRearm(c, T) ==
+    LET Fresh(n) == IF queued[n] THEN {}                \* a node in the queue is exempt
+                    ELSE { e \in Due(n, c) : served[n][e] # c + DelayOf(n, e, c).d }
+        F == { n \in Nodes : Fresh(n) # {} }
+        L == UNION { Later(n, c) : n \in Nodes } \cup (IF \E n \in Nodes : Due(n, c) # {} THEN {DayOver(c)} ELSE {})
+    IN /\ booted'   = booted \cup UNION { { <<n, e>> : e \in BootEv(n) } : n \in Nodes }
+       /\ timers'   = IF L = {} THEN T ELSE T \cup {c + Min(L)}
+       /\ status'   = [n \in Nodes |-> IF n \in F THEN "waiting" ELSE IF ~queued[n] THEN "delayed" ELSE status[n]]
+       /\ queued'   = [n \in Nodes |-> queued[n] \/ n \in F]
+       /\ todo'     = [n \in Nodes |-> IF n \in F THEN todo[n] \cup Want(n) ELSE todo[n]]
+       /\ lastFire' = [n \in Nodes |-> IF n \in F THEN c ELSE lastFire[n]]
+       /\ served'   = [n \in Nodes |-> [e \in Ev(n) |-> IF e \in Fresh(n) THEN c + DelayOf(n, e, c).d ELSE served[n][e]]]
+
+Defer(c, T) == IF Fire = "pinned" THEN DeferPinned(c, T) ELSE DeferRearm(c, T)
 
 FInit == /\ cfg \in Configs
          /\ up = FALSE /\ clock = cfg.start /\ timers = {}
          /\ status = [n \in Nodes |-> "initial"] /\ queued = [n \in Nodes |-> FALSE]
          /\ todo = [n \in Nodes |-> {}] /\ exec = [n \in Nodes |-> {}]
          /\ booted = {} /\ targets = {T1} /\ lastFire = [n \in Nodes |-> -1] /\ env = MaxEnv
+         /\ served = [n \in Nodes |-> [e \in Ev(n) |-> -1]]
 
 Boot == /\ ~up /\ up' = TRUE
         /\ Defer(clock, timers)
@@ -100,7 +127,7 @@ Tick == /\ up /\ env > 0 /\ timers # {} /\ Min(timers) < Horizon
 Advance(dt) == /\ up /\ env > 0 /\ clock + dt < Horizon
                /\ timers # {} => clock + dt < Min(timers)
                /\ clock' = clock + dt /\ env' = env - 1
-               /\ UNCHANGED <<cfg, up, timers, status, queued, todo, exec, booted, targets, lastFire>>
+               /\ UNCHANGED <<cfg, up, timers, status, queued, todo, exec, booted, targets, lastFire, served>>
 
 (* one farm.dispatch releases everything that can be released (the nodes do not depend on each other) *)
 Avail(n) == IF ~queued[n] \/ ALL \in exec[n] THEN {} ELSE todo[n] \ exec[n]
@@ -108,18 +135,18 @@ Dispatch == /\ up /\ \E n \in Nodes : Avail(n) # {}
             /\ exec'   = [n \in Nodes |-> exec[n] \cup Avail(n)]
             /\ todo'   = [n \in Nodes |-> todo[n] \ Avail(n)]
             /\ status' = [n \in Nodes |-> IF Avail(n) # {} THEN "running" ELSE status[n]]
-            /\ UNCHANGED <<cfg, up, clock, timers, queued, booted, targets, lastFire, env>>
+            /\ UNCHANGED <<cfg, up, clock, timers, queued, booted, targets, lastFire, served, env>>
 
 Complete(n, x) == /\ x \in exec[n]
                   /\ exec' = [exec EXCEPT ![n] = @ \ {x}]
                   /\ IF todo[n] = {} /\ exec'[n] = {}
                      THEN queued' = [queued EXCEPT ![n] = FALSE] /\ status' = [status EXCEPT ![n] = "waiting"]
                      ELSE UNCHANGED <<queued, status>>
-                  /\ UNCHANGED <<cfg, up, clock, timers, todo, booted, targets, lastFire, env>>
+                  /\ UNCHANGED <<cfg, up, clock, timers, todo, booted, targets, lastFire, served, env>>
 
 NewTarget == /\ up /\ env > 0 /\ T2 \notin targets
              /\ targets' = targets \cup {T2} /\ env' = env - 1
-             /\ UNCHANGED <<cfg, up, clock, timers, status, queued, todo, exec, booted, lastFire>>
+             /\ UNCHANGED <<cfg, up, clock, timers, status, queued, todo, exec, booted, lastFire, served>>
 
 FNext == \/ Boot \/ Tick \/ Dispatch \/ NewTarget
          \/ \E dt \in Jumps : Advance(dt)
@@ -133,7 +160,9 @@ FSpec == FInit /\ [][FNext]_fvars
 Busy(n)        == queued[n] \/ exec[n] # {}
 Fired(n)       == todo'[n] \ todo[n] # {} \/ (queued'[n] /\ ~queued[n])   \* observable: the node was put on the queue / got work
 AllOcc(n)      == UNION { OccTab[e] : e \in TimedEv(n) }
-Upcoming(n, c) == { m \in AllOcc(n) : m >= c }
+(* the occurrences still to come that the node has not been fired for yet (a
+   firing up to Window before a moment is the firing for that moment) *)
+Upcoming(n, c) == { m \in AllOcc(n) : m > c /\ lastFire[n] < m - Window }
 
 (* a due event queues its algorithm for all currently known targets (the
    all-targets marker for an analysis) *)
@@ -158,7 +187,15 @@ Crossed(n, c1, c2) == { m \in AllOcc(n) : c1 < m /\ m <= c2 }
 RecursStep(n) == (up /\ clock' > clock) =>
                     \A m \in Crossed(n, clock, clock') : Busy(n) \/ lastFire'[n] >= m - Window
 
+(* ... and once per occurrence: two firings of a node are not both the firing
+   for the same moment m (a firing is "for m" from Window before m until the
+   end of m's day) *)
+FiringFor(f, m) == m - Window <= f /\ f < (m \div DAY + 1) * DAY
+OnceStep(n) == (Fired(n) /\ lastFire[n] >= 0) =>
+                  ~ \E m \in AllOcc(n) : FiringFor(lastFire[n], m) /\ FiringFor(clock', m)
+
 C20_FireTargets == [][\A n \in Nodes : FireTargetsStep(n)]_fvars
+C20_Once        == [][\A n \in Nodes : OnceStep(n)]_fvars
 C20_BootFires   == [][\A n \in Nodes : BootFiresStep(n)]_fvars
 C20_BootOnce    == [][\A n \in Nodes : BootOnceStep(n)]_fvars
 C20_Armed       == \A n \in Nodes : Armed(n)
